@@ -21,6 +21,7 @@ ORACLES = {
                  '  CHECK(OUT[O_LEXCALLS] == ref_lexcalls, "the custom lexer is asked exactly once per needed term");\n'
                  '  CHECK(OUT[O_LEXHASH] == ref_lexhash, "the custom lexer is asked at the reference offsets (after the same whitespace skipping)");\n',
     'dual_hist': '  /* the earlier call (O_ALT_*) ran on another input; nothing to compare with it - its only role is to precede this call */\n',
+    'moves':     '  CHECK((OUT[O_FLAGS] & 16u) == 0, "no semantic value is handed to a functor, moved or returned after it has been moved from (each value is consumed at most once)");\n',
     'silent':    '  if (OUT[O_OK]) CHECK(OUT[O_NMSG] == 0, "a successful non-verbose parse writes nothing");\n',
 }
 
